@@ -72,6 +72,14 @@ type Operation struct {
 	// The commit index at the time the operation was submitted. Only applicable to
 	// linearizable and lease-based read-only operations.
 	readIndex uint64
+
+	// The position of this operation in the sequence of read-only operations registered
+	// by the leader. Only applicable to linearizable read-only operations.
+	sequence uint64
+
+	// The voting members that have answered an AppendEntries RPC which was sent after this
+	// operation was registered. Only applicable to linearizable read-only operations.
+	acknowledgedBy map[string]struct{}
 }
 
 type operationManager struct {
@@ -86,6 +94,9 @@ type operationManager struct {
 
 	// The lease for lease-based reads.
 	leaderLease *lease
+
+	// The number of read-only operations registered so far.
+	sequence uint64
 }
 
 func newOperationManager(leaseDuration time.Duration) *operationManager {
@@ -102,6 +113,31 @@ func (r *operationManager) markAsVerified() {
 		operation.quorumVerified = true
 	}
 	r.shouldVerifyQuorum = true
+}
+
+// acknowledge records that the voting member with the provided ID answered an AppendEntries RPC
+// that was sent when sentAfter read-only operations had been registered. Only operations registered
+// before the RPC was sent are confirmed by it: a response to an older RPC says nothing about whether
+// this node was still the leader when the operation arrived. An operation is marked as verified once
+// the members that confirmed it (and this node) constitute a quorum. Returns true if any operation
+// became verified.
+func (r *operationManager) acknowledge(id string, sentAfter uint64, hasQuorum func(int) bool) bool {
+	verified := false
+	for operation := range r.pendingReadOnly {
+		if operation.OperationType != LinearizableReadOnly || operation.quorumVerified ||
+			operation.sequence > sentAfter {
+			continue
+		}
+		if operation.acknowledgedBy == nil {
+			operation.acknowledgedBy = make(map[string]struct{})
+		}
+		operation.acknowledgedBy[id] = struct{}{}
+		if hasQuorum(len(operation.acknowledgedBy) + 1) {
+			operation.quorumVerified = true
+			verified = true
+		}
+	}
+	return verified
 }
 
 func (r *operationManager) appliableReadOnlyOperations(
